@@ -47,7 +47,8 @@ fn stamp_strategy() -> BoxedStrategy<Ndt> {
         // outside
         2 => gen::ndt(),
         // range ends: with an offset the wall clock lies in the one-day headroom
-        2 => crate::props::c04::utc(),
+        // (leap readings are the subject of `leap_operands_no_panic`, not of the multiples oracle)
+        2 => crate::props::c04::utc().prop_map(|n| Ndt { frac: n.frac % 1_000_000_000, ..n }),
     ]
     .boxed()
 }
